@@ -28,11 +28,12 @@ DoWriteBytesFail == \E k \in 0..MaxK : Wrap(WriteBytesFail(k))
 DoReserveOk      == \E k \in 0..MaxK : Wrap(ReserveOk(k))
 DoReserveFail    == \E k \in 0..MaxK : Wrap(ReserveFail(k))
 DoReserveHuge    == \E k \in 0..1 : Wrap(ReserveHuge(k))
+DoWriteForeign   == \E k \in 0..1 : Wrap(WriteForeign(k))
 DoWriteResOk     == \E r \in 1..Len(resv), k \in 0..MaxK : Wrap(WriteResOk(r, k))
 DoWriteResFail   == \E r \in 1..Len(resv), k \in 0..MaxK : Wrap(WriteResFail(r, k))
 
 Next == \/ DoWriteByteOk \/ DoWriteByteFail \/ DoWriteBytesOk \/ DoWriteBytesFail
-        \/ DoReserveOk \/ DoReserveFail \/ DoReserveHuge \/ DoWriteResOk \/ DoWriteResFail
+        \/ DoReserveOk \/ DoReserveFail \/ DoReserveHuge \/ DoWriteForeign \/ DoWriteResOk \/ DoWriteResFail
 
 Spec == Init /\ [][Next]_vars
 
